@@ -306,6 +306,36 @@ fn oracle(s: &ProgScene<X>, t: &Trace) -> Vec<Violation> {
             }
         }
     }
+    // (g2) the same for timers a *handler* registers (a command message): whatever the history of
+    // restarts before it, a timer registered by the running incarnation fires as long as that
+    // incarnation runs
+    if s.extra.horizon > 0 {
+        for cs in &s.clients {
+            for op in &cs.ops {
+                let Op::Cmd(_, cmd_id, a) = op else { continue };
+                let Some(reg) = an.exit_of_msg(0, *cmd_id) else { continue };
+                let r = reg.inc;
+                let end = an.enters.iter().find(|e| e.a == 0 && e.cb == Cb::Stopped && e.inc == r).map(|e| e.time).unwrap_or(s.extra.horizon).min(term.map(|(i, _)| t.log[i].time).unwrap_or(u64::MAX));
+                let (timer, times, exec): (u8, Vec<u64>, bool) = match *a {
+                    Action::Interval { timer, period } | Action::IntervalWith { timer, period } => (timer, (1..).map(|k| reg.time + k * period as u64).take_while(|x| *x < end).collect(), false),
+                    Action::DelayedSend { timer, delay } => (timer, Some(reg.time + delay as u64).into_iter().filter(|x| *x < end).collect(), false),
+                    Action::DelayedExec { timer, delay } => (timer, Some(reg.time + delay as u64).into_iter().filter(|x| *x < end).collect(), true),
+                    _ => continue,
+                };
+                for at in times {
+                    crate::check::oblige("current-timers-keep-firing");
+                    let fired = an.enters.iter().any(|e| e.a == 0 && e.time == at && if exec { e.cb == Cb::Exec { timer, reg_inc: r } } else { e.cb == Cb::Tick { timer, reg_inc: r } });
+                    if !fired {
+                        out.push(Violation {
+                            clause: "current-timers-keep-firing",
+                            key: format!("C07/handler-registered-timer-silent/strategy={sk}"),
+                            detail: format!("timer {timer} registered by a handler of incarnation {r} at t={} did not fire at t={at} although that incarnation ran until t={end}", reg.time),
+                        });
+                    }
+                }
+            }
+        }
+    }
     // (h) identity as others see it: an actor that subscribes itself to a broker topic in
     // started() does so again after every restart - being the same actor, that is still one
     // subscription, and a publication reaches it exactly once
@@ -648,6 +678,10 @@ fn cases(tier: Tier) -> Vec<Case> {
                 for s1 in [0u32, 1, 3] {
                     v.push(make_case(&[vec![R::CmdTimer(a), R::Sleep(s1), R::Restart, R::Call]], strat, mb, None, &[], 10, None));
                 }
+                // ... and the other way round: restarted first (nothing registered yet), then a
+                // handler of the new incarnation registers its timer
+                v.push(make_case(&[vec![R::Restart, R::CmdTimer(a), R::Sleep(5), R::Call]], strat, mb, None, &[], 10, None));
+                v.push(make_case(&[vec![R::Call, R::CmdRestart, R::CmdTimer(a), R::Sleep(5), R::Call]], strat, mb, None, &[], 10, None));
             }
         }
     }
